@@ -21,6 +21,10 @@ def dispatch (j : Json) : R Json := do
   | "ws_combine" => opWsCombine j
   | "ws_sorted" => opWsSorted j
   | "ws_prune_rename" => opWsPruneRename j
+  | "xml_export" => opXmlExport j
+  | "xml_import" => opXmlImport j
+  | "xml_roundtrip" => opXmlRoundtrip j
+  | "xml_cache" => opXmlCache j
   | "events" => opEvents j
   | "grad" => opGrad j
   | "prob" => opProb j
